@@ -657,9 +657,9 @@ func init() {
 }
 
 // tokensDeployments: C04 in deployments the environments above do not build, and over time.
-//   * a provider configured WITHOUT an e-mail claim (an alpha YAML that leaves `emailClaim` out — there is no default on that path):
+//   - a provider configured WITHOUT an e-mail claim (an alpha YAML that leaves `emailClaim` out — there is no default on that path):
 //     whatever the proxy makes of such a configuration, a token whose standard e-mail is marked unverified never becomes a session;
-//   * a bearer token that was accepted while valid is verified AGAIN on every presentation: once it has expired it is refused.
+//   - a bearer token that was accepted while valid is verified AGAIN on every presentation: once it has expired it is refused.
 func tokensDeployments(c *suiteCtx) {
 	u := defaultUser()
 	if e, err := newEnv(c, proxyCfg{EmailClaim: "<empty>", SkipJwtBearer: true, CookieRefresh: time.Hour, InjectRequest: defaultInject()}); err == nil {
